@@ -24,6 +24,10 @@
      wd    the CURRENT working directory of the process (byte string, absolute).  Cwd at
            start; the action Chdir(d) changes it.  The table is NOT touched by Chdir: the preset
            entry  cwd -> "."  keeps the START directory for the life of the process.
+           The working directory may also be LOST (action LoseWd: the directory the process
+           stands in is removed underneath it - a cleaned-up build or temp directory, a
+           container volume that went away; os.Getwd then fails): wd = LOST, the value "lost".
+           A later Chdir gives the process a working directory again.
      fp    flag Lprivacypath       (on by default)
      fr    flag Lprivacypathregexp (on by default, removed by init() in a testing/debug process)
 
@@ -41,6 +45,9 @@
         CURRENT working directory, or it would not be an equivalent path - when that is a
         strictly shorter string ("unchanged or a shorter equivalent relative path": both are
         allowed, so this is a set).  A relative input is never touched by this step.
+        While the working directory is LOST no relative form can be computed: the step does
+        nothing - and steps 1 and 2 are applied all the same (the statement makes the hardening
+        depend on the flag and the mappings, not on the process having a working directory).
    fp off: only step 3.
 
    DEVIATIONS (section 5 of DESIGN.md).  D is a set of named deviations describing what the
@@ -59,6 +66,9 @@
      "StopRel"     the scan of the table ends as soon as the current string is not absolute
                    (relative paths see only the entry that happens to be visited first)
      "StaleWd"     step 3 uses the working directory of process start instead of the current one
+     "LostWdRaw"   while the working directory is lost the path is handed back as it came in
+                   (the failing os.Getwd is taken as "nothing can be done" before the hardened
+                   string is returned)
 
    WHICH OPERATOR STATES WHICH PART OF THE PROPERTY
      NoProtectedPrefix   "a path under $HOME or under a registered mapping is never reported
@@ -70,6 +80,8 @@
      Total               "never panics": every query has a result, a byte string
      OrderOnlyIfNested   more than one allowed result only where two mappings cover the path
      RegexpGated         with Lprivacypathregexp off the registered regexps have no effect
+     LostWdHardened      without a working directory the result is exactly the hardened string
+                         (steps 1 and 2), never the raw input of a protected path, never a relative form
      UnderAgree          byte-string and segment formulations of "lies under" coincide       *)
 EXTENDS Integers, Sequences, FiniteSets, TLC
 
@@ -97,8 +109,9 @@ DOT    == <<46>>
 DOTDOT == <<46, 46>>
 VOLUMES == <<47, 86, 111, 108, 117, 109, 101, 115, 47>>            \* "/Volumes/"
 AllDevs == {"NoBoundary", "ReplaceAll", "RawTable"}
-WitDevs == {"StopRel", "StaleWd"}
-AllActs == {"AddMap", "RemoveMap", "ResetMap", "AddRx", "RemoveRx", "ResetRx", "SetFlag", "Chdir"}
+WitDevs == {"StopRel", "StaleWd", "LostWdRaw"}
+AllActs == {"AddMap", "RemoveMap", "ResetMap", "AddRx", "RemoveRx", "ResetRx", "SetFlag", "Chdir", "LoseWd"}
+LOST    == <<>>      \* the value "lost" of st.wd: the process has no working directory (no byte string is empty AND a directory)
 
 VolRx == [anch |-> FALSE, lit |-> VOLUMES, wild |-> TRUE, repl |-> TILDE]
 
@@ -202,6 +215,7 @@ Apply(s, e) ==
       [] e.op = "RemoveRx"  -> [s EXCEPT !.rx = RemoveFirstRx(s.rx, e.r)]
       [] e.op = "ResetRx"   -> [s EXCEPT !.rx = <<>>]
       [] e.op = "Chdir"     -> [s EXCEPT !.wd = e.d]          \* os.Chdir: the table keeps the start directory
+      [] e.op = "LoseWd"    -> [s EXCEPT !.wd = LOST]         \* the directory is removed underneath the process
       [] e.op = "SetFlag"   -> IF e.f = "path" THEN [s EXCEPT !.fp = e.on] ELSE [s EXCEPT !.fr = e.on]
 
 -----------------------------------------------------------------------------
@@ -259,13 +273,15 @@ Stage2(s, file, q) == IF s.fr THEN RxFold(file, q, s.rx) ELSE VolRule(q)
 \* an absolute result may be given as the relative path from the CURRENT working directory when
 \* that is strictly shorter
 Final(s, file, q, D) ==
-    IF Abs(q) /\ Abs(file)
+    IF s.wd = LOST /\ "StaleWd" \notin D THEN {q}              \* nothing to be relative to
+    ELSE IF Abs(q) /\ Abs(file)
     THEN LET r == Rel(IF "StaleWd" \in D THEN Cwd ELSE s.wd, file)
          IN IF Len(r) > 0 /\ Len(r) < Len(q) THEN {q, r} ELSE {q}
     ELSE {q}
 
 Outputs(s, p, D) ==
-    IF ~s.fp THEN Final(s, p, p, D)
+    IF "LostWdRaw" \in D /\ s.wd = LOST THEN {p}
+    ELSE IF ~s.fp THEN Final(s, p, p, D)
     ELSE UNION {Final(s, p, Stage2(s, p, q), D) : q \in PrefixStage(s, p, D)}
 
 -----------------------------------------------------------------------------
@@ -288,6 +304,7 @@ RemoveRx(i)  == "RemoveRx" \in Acts /\ st' = Apply(st, [op |-> "RemoveRx", r |->
 ResetRx      == "ResetRx" \in Acts /\ st' = Apply(st, [op |-> "ResetRx"])
 SetFlag(f, b) == "SetFlag" \in Acts /\ st' = Apply(st, [op |-> "SetFlag", f |-> f, on |-> b])
 Chdir(i)     == "Chdir" \in Acts /\ st' = Apply(st, [op |-> "Chdir", d |-> DirSeq[i]])
+LoseWd       == "LoseWd" \in Acts /\ st.wd # LOST /\ st' = Apply(st, [op |-> "LoseWd"])
 
 Init == st = InitState
 DumpAlias == [n |-> Cardinality(DOMAIN st.tab)]      \* keeps the dumped graph small: only edges are used
@@ -300,6 +317,7 @@ Next ==
     \/ ResetRx
     \/ \E f \in {"path", "regexp"}, b \in BOOLEAN : SetFlag(f, b)
     \/ \E i \in 1..Len(DirSeq) : Chdir(i)
+    \/ LoseWd
 Spec == Init /\ [][Next]_st
 
 -----------------------------------------------------------------------------
@@ -314,7 +332,7 @@ TypeOK ==
     /\ st.fp \in BOOLEAN /\ st.fr \in BOOLEAN
     /\ \A k \in DOMAIN st.tab : k \in Seq(Byte) /\ st.tab[k] \in Seq(Byte)
     /\ Len(st.rx) <= MaxRx
-    /\ st.wd \in Seq(Byte) /\ Abs(st.wd)
+    /\ st.wd \in Seq(Byte) /\ (Abs(st.wd) \/ st.wd = LOST)
 
 (* Each part of the property as a predicate of a state s and a deviation set D; the invariants
    proper are the instances for the current state and the configured Devs (= {}).            *)
@@ -340,6 +358,7 @@ Outside(s, p) ==
 \* o is a strictly shorter relative path that names the same file as the absolute path p for a
 \* process whose working directory is s.wd NOW
 ShorterEquiv(s, o, p) ==
+    /\ s.wd # LOST
     /\ Abs(p) /\ ~Abs(o) /\ Len(o) > 0 /\ Len(o) < Len(p)
     /\ CleanAbs(s.wd \o <<SLASH>> \o o) = CleanAbs(p)
 OutsideUnchangedAt(s, D) ==
@@ -351,12 +370,18 @@ OrderOnlyIfNestedAt(s, D) ==
 RegexpGatedAt(s, D) ==
     ~s.fr => \A p \in Inputs : Outputs(s, p, D) = Outputs([s EXCEPT !.rx = <<>>], p, D)
 
+\* the working directory is lost: exactly the hardened string, whatever it is
+LostWdHardenedAt(s, D) ==
+    s.wd = LOST => \A p \in Inputs :
+        Outputs(s, p, D) = IF s.fp THEN {Stage2(s, p, q) : q \in PrefixStage(s, p, D \ {"LostWdRaw"})} ELSE {p}
+
 Total             == TotalAt(st, Devs)
 NoProtectedPrefix == NoProtectedPrefixAt(st, Devs)
 ShortFormUsed     == ShortFormUsedAt(st, Devs)
 OutsideUnchanged  == OutsideUnchangedAt(st, Devs)
 OrderOnlyIfNested == OrderOnlyIfNestedAt(st, Devs)
 RegexpGated       == RegexpGatedAt(st, Devs)
+LostWdHardened    == LostWdHardenedAt(st, Devs)
 
 (* Witnesses (ASSUMEd by the MC module of the main scenario): each deviation of the pinned code
    makes a part of the property FALSE already in the start state / after a Reset - so the
@@ -376,6 +401,14 @@ WitnessStopRel == /\ \E i \in RelMaps : ~NoProtectedPrefixAt(AfterAdd(i), {"Stop
                   /\ \A i \in RelMaps : NoProtectedPrefixAt(AfterAdd(i), {}) /\ ShortFormUsedAt(AfterAdd(i), {})
 WitnessStaleWd == /\ \E i \in 1..Len(DirSeq) : ~OutsideUnchangedAt(AfterChdir(i), {"StaleWd"})
                   /\ \A i \in 1..Len(DirSeq) : OutsideUnchangedAt(AfterChdir(i), {})
+
+\* the dimension "the working directory may be lost" is constrained: handing the input back as it came
+\* in lets the home directory / a registered directory through; the property reading does not, and it
+\* still replaces the prefix by the short form
+AfterLose == Apply(InitState, [op |-> "LoseWd"])
+WitnessLostWd == /\ ~NoProtectedPrefixAt(AfterLose, {"LostWdRaw"}) /\ ~LostWdHardenedAt(AfterLose, {"LostWdRaw"})
+                 /\ NoProtectedPrefixAt(AfterLose, {}) /\ ShortFormUsedAt(AfterLose, {})
+                 /\ LostWdHardenedAt(AfterLose, {}) /\ OutsideUnchangedAt(AfterLose, {})
 
 \* the two formulations of "lies under" agree on everything the model can compare
 AllDirs == {MapSeq[i].k : i \in 1..Len(MapSeq)} \cup {KeySeq[j] : j \in 1..Len(KeySeq)} \cup ({Home, Cwd} \ {<<>>})
